@@ -9,6 +9,7 @@
 import Gobptree.Proofs.ScanTree
 import Gobptree.Proofs.IdsRun
 import Gobptree.Props.C01
+import Gobptree.Proofs.SpecSorted
 
 namespace Gobptree
 
@@ -30,6 +31,25 @@ theorem C02_scan_exact (hp : ParamsOk lt P) (h4 : 4 ≤ P.order) (ops : List (Op
   have hids := run_ids P ops _ _ _ heq (new_ids P.order)
   obtain ⟨fuel, hscan⟩ := scanFrom_ok hp.swo P hp.lt_eq hp.two_le t' hto hinv' hids.1 s
   exact ⟨t', _, fuel, heq, hscan⟩
+
+/-- **C02 (ascending, once each).** What a scan yields after any history is strictly
+    ascending in the key order, so no key (modulo order-equivalence) is reported twice; and it
+    contains exactly the stored pairs whose key is not below the start key. -/
+theorem C02_scan_ascending (hp : ParamsOk lt P) (h4 : 4 ≤ P.order) (ops : List (Op K V)) (s : K) :
+    ∃ (t' : Tree K V) (outs : List (Out V)) (fuel : Nat) (ps : List (K × V)),
+      (Tree.new P.order : Tree K V).run P ops = .ok (t', outs) ∧
+      t'.scanFrom P {} s none fuel = .ok (ps, true) ∧
+      KSorted lt ps ∧ (∀ p, p ∈ ps ↔ (p ∈ t'.abs ∧ lt p.1 s = false)) := by
+  obtain ⟨hinv, hnil⟩ := new_ok (lt := lt) (K := K) (V := V) P.order
+  obtain ⟨t', heq, hinv', hto, hp'⟩ := run_ok hp ops (Tree.new P.order) rfl hinv (fun _ _ _ => h4)
+  have hids := run_ids P ops _ _ _ heq (new_ids P.order)
+  obtain ⟨fuel, hscan⟩ := scanFrom_ok hp.swo P hp.lt_eq hp.two_le t' hto hinv' hids.1 s
+  have habs : KSorted lt t'.abs := by
+    rw [Tree.abs_eq_pairs, hp', hnil]
+    exact Spec.run_sorted hp.swo ops [] List.Pairwise.nil
+  refine ⟨t', _, fuel, _, heq, hscan, Spec.from_sorted _ s habs, ?_⟩
+  intro p
+  simp [Spec.from, List.mem_filter]
 
 /-- **C02 (order 2, partial).** The same for order 2 (any even order ≥ 2) after histories
     without Delete (KF-1). -/
@@ -74,6 +94,7 @@ example : (do let (t, _) ← (Tree.new 4 : Tree Nat Nat).run (natP 4) ((List.ran
 end Gobptree
 
 #print axioms Gobptree.C02_scan_exact
+#print axioms Gobptree.C02_scan_ascending
 #print axioms Gobptree.C02_order2_partial
 #print axioms Gobptree.C02_scan_exact_inv
 #print axioms Gobptree.C02_start_exact
